@@ -253,3 +253,51 @@ class CFG:
                 return {"kind": "call", "f": norm(t.get("res") or t.get("f") or ""), "bb": p, "args": t.get("args", [])}
             return self.origin_of(base, p, depth + 1)
         return {"kind": "unknown"}
+
+
+# ------------------------------------------------------------ splicing absorbed helpers (vlib/inline.py)
+
+import copy as _copy
+import json as _json
+import re as _re
+
+_LOCAL = _re.compile(r"(?<![A-Za-z0-9_])_(\d+)(?![A-Za-z0-9_])")
+
+
+def splice(mir, helper_mir_of, depth=0):
+    """MIR of a fn with the bodies of its absorbed helpers spliced in at their call sites: the call block jumps to the helper's entry,
+    the helper's return blocks jump to the call's continuation.  Helper locals are renamed (`_3` -> `_h2_3`) so that they do not collide.
+    `helper_mir_of(def)` -> mir of an absorbed helper or None."""
+    blocks = _copy.deepcopy(mir["blocks"])
+    out = {"locals": list(mir.get("locals", [])), "blocks": blocks}
+    n_spliced = 0
+    i = 0
+    while i < len(blocks):
+        t = blocks[i]["term"]
+        if t.get("k") == "call" and not blocks[i].get("cleanup"):
+            callee = norm(t.get("res") or "") or norm(t.get("f") or "")
+            hm = helper_mir_of(callee) if callee else None
+            if hm is None and t.get("f"):
+                hm = helper_mir_of(norm(t["f"]))
+            if hm is not None and depth < 4 and n_spliced < 12 and "t" in t:
+                n_spliced += 1
+                inner = splice(hm, helper_mir_of, depth + 1)
+                off = len(blocks)
+                tag = "_h%d_" % (off,)
+                txt = _LOCAL.sub(lambda m: tag + m.group(1), _json.dumps(inner["blocks"]))
+                hb = _json.loads(txt)
+                cont = t["t"]
+                uw = t.get("uw")
+                for b in hb:
+                    bt = b["term"]
+                    for key in ("t", "o", "uw"):
+                        if isinstance(bt.get(key), int):
+                            bt[key] = bt[key] + off
+                    if isinstance(bt.get("ts"), list):
+                        bt["ts"] = [x + off for x in bt["ts"]]
+                    if bt.get("k") == "ret":
+                        b["term"] = {"k": "goto", "t": cont, "s": bt.get("s"), "ln": bt.get("ln")}
+                blocks[i]["term"] = {"k": "goto", "t": off, "s": t.get("s"), "ln": t.get("ln"), "spliced": callee}
+                blocks.extend(hb)
+        i += 1
+    return out
